@@ -406,14 +406,18 @@ pub fn run_c11(run: &Run) {
         let shared: Vec<Fm> = {
             use crate::oracle::Fm as F;
             let a = |i| F::Atom(i);
-            vec![a(0), F::not(a(0)), F::bin(4, F::Top, a(0)), F::bin(0, a(0), a(1)), F::bin(1, a(1), F::not(a(2))), F::bin(3, a(0), a(2)), F::bin(2, a(2), a(1)), F::bin(4, a(1), a(2))]
+            vec![
+                a(0), F::not(a(0)), F::bin(4, F::Top, a(0)), F::bin(0, a(0), a(1)), F::bin(1, a(1), F::not(a(2))), F::bin(3, a(0), a(2)), F::bin(2, a(2), a(1)), F::bin(4, a(1), a(2)),
+                // ... and conditions that mention the two statements that share them
+                a(3), F::not(a(4)), F::bin(4, a(0), a(3)), F::bin(0, a(0), a(4)), F::bin(1, a(3), F::not(a(4))), F::bin(3, a(3), a(4)), F::bin(2, a(4), a(1)), F::bin(0, a(3), F::bin(1, a(4), a(2))),
+            ]
         };
         let nsh = shared.len() as u64;
         let total = 12u64.pow(3) * nsh;
         let class = 1u64;
         let seqs: [&[usize]; 4] = [&[5, 4], &[4, 5], &[5, 4, 5], &[4, 5, 4]];
         let res = run.par_family(
-            &format!("statements sharing a condition: {} ADFs with 5 statements (12^3 ternary conditions x {} shared conditions{}) x 4 orders of the two counting searches", total / class, nsh, if quick { ", one class mod 2" } else { "" }),
+            &format!("statements sharing a condition: {} ADFs with 5 statements (12^3 ternary conditions over the first three x {} shared conditions, half of which mention the sharing statements{}) x 4 orders of the two counting searches", total / class, nsh, if quick { ", one class mod 2" } else { "" }),
             total / class,
             || (0u64, 0u64),
             |st, k| {
@@ -439,6 +443,37 @@ pub fn run_c11(run: &Run) {
                 }
             },
             &|k| json!({"type": "twins", "index": k}),
+        );
+        for st in res {
+            run.add_counts(0, st.1, st.0, st.0);
+        }
+    }
+    // four statements with conditions over at most two of them: the two counting searches one after the other, both orders
+    // (quick: one residue class modulo 256 of F(4,2), thorough: modulo 16)
+    {
+        let mut f = fam_f(4, 2);
+        let m = if quick { 256 } else { 16 };
+        f.first = run.seed % m;
+        f.step = m;
+        f.name = format!("F(4,2) class {} mod {}", run.seed % m, m);
+        let src = Source::FamCompact(f);
+        let seqs: [&[usize]; 2] = [&[5, 4], &[4, 5]];
+        let res = run.par_family(
+            &format!("the two counting searches in both orders on {} (native)", src.name()),
+            src.size(),
+            || (0u64, 0u64),
+            |st, k| {
+                let c = src.get(k);
+                let mut fresh: Vec<Option<Norm>> = vec![None; CALLS_EXT];
+                for seq in seqs {
+                    st.0 += 1;
+                    st.1 += 2;
+                    for (kind, msg) in seq_case(&c.text, &c.tts, false, seq, &mut fresh, false) {
+                        run.violation(&kind, format!("{} on {}", msg.chars().take(500).collect::<String>(), c.text), json!({"type": "call_seq", "text": c.text, "tts": c.tts, "bridged": false, "calls": seq}));
+                    }
+                }
+            },
+            &|k| src.describe(k),
         );
         for st in res {
             run.add_counts(0, st.1, st.0, st.0);
